@@ -1057,3 +1057,31 @@ def c10_numbering(run):
 
 
 PROPS["C10"].setdefault("extra", []).append(c10_numbering)
+
+
+def c17_race(run):
+    """bounded: 16 goroutines with their own objects under the race detector (scheduler-chosen interleavings only)"""
+    import common as C, json, os, shutil
+    viol, cases, samples = [], 0, []
+    for c in ("recover", "recover_zip"):
+        d = run.carriers[c]
+        shutil.copy(os.path.join(C.VERIF, "harness/conc/verif_conc_test.go"), os.path.join(d, "verif_conc_test.go"))
+        out = os.path.join(run.work, "conc-%s.json" % c)
+        rc, o = C.sh(["go", "test", "-race", "-vet=off", "-count=1", "-run", "TestVerifConc", "."], cwd=d, env=dict(C.GOENV, VERIF_OUT=out, VERIF_CONC="1"), timeout=900)
+        os.remove(os.path.join(d, "verif_conc_test.go"))
+        if "DATA RACE" in o:
+            viol.append({"id": "C17 data race reported by the race detector (%s)" % c, "what": o[o.index("DATA RACE") - 20:][:1500], "input": {"carrier": c}})
+        if os.path.exists(out):
+            r = json.load(open(out))
+            cases += r["cases"]
+            for f in r.get("fails") or []:
+                viol.append({"id": "C17 concurrent result differs (%s)" % c, "what": f, "input": {"carrier": c, "case": f}})
+        elif "DATA RACE" not in o:
+            if "[build failed]" in o:
+                raise C.EngineError("conc harness does not build:\n" + o[-1500:])
+            viol.append({"id": "C17 concurrent run crashed (%s)" % c, "what": o[-1200:], "input": {"carrier": c}})
+        samples.append({"carrier": c, "goroutines": 16, "rounds": 20})
+    return {"name": "RACE 16 goroutines x own lexer/parser under go test -race (bounded; interleavings not explored)", "cases": cases, "evaluations": cases, "violations": viol[:6], "samples": samples}
+
+
+PROPS["C17"]["extra"].append(c17_race)
